@@ -310,7 +310,7 @@ def run_job(job, workroot, keep=False):
     if r.ignored_quant:
         r.status, r.reason = 'error', 'back end ignored a quantifier'
         return r
-    if job.canary and not r.canary_fired:
+    if job.canary and not r.canary_fired and not [o for o in r.failed if o['status'] == 'FAILURE']:
         r.status, r.reason = 'error', 'vacuous: canary after the call did not fire (precondition unsatisfiable or function cannot return)'
         return r
     if job.expect_loop_contracts and r.loop_contract_obls < job.expect_loop_contracts:
@@ -441,6 +441,8 @@ def _summarise(prop, results, tier, meta, seed, t0, workroot, write_baseline):
                 n_bounded_dis += 1 if o['status'] == 'SUCCESS' else 0
             if o['status'] == 'SUCCESS':
                 new_baseline.add(ob_key(j, o))
+        if r.status == 'ok':
+            new_baseline.add('JOB ' + j.name)
         if len(samples) < 6 and r.obligations:
             for o in r.obligations:
                 if 'postcondition' in o['cls'] or 'assertion' in o['cls'] or 'loop' in o['cls']:
@@ -467,7 +469,9 @@ def _summarise(prop, results, tier, meta, seed, t0, workroot, write_baseline):
                     rep = j.replay(j, obs, r, workroot)
                 except Exception as e:
                     rep = dict(reproduced=False, text='replay machinery raised %r' % (e,))
-            in_base = (key in baseline)
+            # baseline gate: this very obligation, or (for obligations that did not exist before, e.g. a call to a
+            # function the contract does not allow) the whole job, was discharged on the unchanged tree
+            in_base = (key in baseline) or (('JOB ' + j.name) in baseline and o['status'] == 'FAILURE')
             path = os.path.join(VERIF, 'replays', '%s-%s-%s.txt' % (prop, re.sub(r'[^A-Za-z0-9_]', '_', j.name), re.sub(r'[^A-Za-z0-9_]', '_', o['name'])))
             body = ['property: %s' % prop, 'job: %s' % j.name, 'failed obligation: %s' % o['name'],
                     'description: %s' % o['desc'], 'source: %s' % json.dumps(o.get('loc', {})),
@@ -521,7 +525,7 @@ def _summarise(prop, results, tier, meta, seed, t0, workroot, write_baseline):
         known_findings_hit=known_lines,
         samples=samples or [dict(note='no obligation produced')],
         evaluations=n_obl + n_bounded,
-        distinct_nontrivial=len(new_baseline),
+        distinct_nontrivial=len([k for k in new_baseline if not k.startswith('JOB ')]),
         rule='one evaluation = one verifier obligation (assertion generated by cbmc/dfcc from the real code or from a contract clause); distinct = distinct (job, function, obligation class) keys that were discharged',
     )
     cov.update(meta.get('extra_coverage', {}))
